@@ -179,6 +179,7 @@ func Run(prog []gen.Cmd, o Opts) ([]Div, Stats) {
 		d.Prog = o.Prog
 		divs = append(divs, d)
 	}
+	prevBad := map[string]bool{}
 	for i, cmd := range prog {
 		if len(cmd) == 0 {
 			continue
@@ -222,10 +223,22 @@ func Run(prog []gen.Cmd, o Opts) ([]Div, Stats) {
 				Sig: "wedge|" + name + "|" + shape})
 			return divs, st
 		}
-		if bad := in.Check(); len(bad) > 0 {
+		bad := in.Check()
+		var fresh []string
+		for _, b := range bad {
+			if !prevBad[b] {
+				fresh = append(fresh, b)
+			}
+		}
+		prevBad = map[string]bool{}
+		for _, b := range bad {
+			prevBad[b] = true
+		}
+		if len(fresh) > 0 {
+			// only inconsistencies this step introduced are attributed to it
 			diverged = true
-			add(Div{Kind: "struct", Step: i, Cmd: Quote(cmd), Detail: strings.Join(bad, "; "),
-				Sig: "struct|" + name + "|" + Generalise(bad[0])})
+			add(Div{Kind: "struct", Step: i, Cmd: Quote(cmd), Detail: strings.Join(fresh, "; "),
+				Sig: "struct|" + name + "|" + Generalise(fresh[0])})
 		}
 		impl := in.Dump()
 		if out.Unspecified {
